@@ -53,7 +53,7 @@ fn words(max_len: usize) -> Vec<CW> {
 pub fn run() -> i32 {
     let mut r = Report::new("C12");
     let thorough = r.thorough();
-    r.rule = "(a) condensed rules: every combination of two inputs, one or two outputs and zero, one or two environments from small pools vs the same sub-rules on consecutive lines; (b) `_,X` for every X of <= 2 (3) environment items vs `X_ , _mirror(X)`; (c) every group letter vs the manual's matrix, bare and with a modifier, as input, in a context, in a structure and in a romaniser, on every segment of the universe; (d) optionals `(X,M:N)`, `(X)`, `(X,N)`, `(X,0)` for X of 1-2 capture-free items, 0<=M<=N<=3, before and after `_`, followed by 0-1 items, as context and as exception, vs the environment set of the explicit repetitions; (e) `A B > &` vs `A=1 B=2 > 2 1` for matrices/groups; x every word of W(I4,L). Oracle: structural equality of the two runs, or both Err. Non-trivial = equal and the word changed.".into();
+    r.rule = "(a) condensed rules: every combination of two inputs, one or two outputs and zero, one or two environments from small pools vs the same sub-rules on consecutive lines; (b) `_,X` for every X of <= 2 (3) environment items vs `X_ , _mirror(X)`; (c) every group letter vs the manual's matrix, bare and with a modifier (also one that repeats or flips each of the group's own features), as input, in a context, in a structure and in a romaniser, on every segment of the universe; (d) optionals `(X,M:N)`, `(X)`, `(X,N)`, `(X,0)` for X of 1-2 capture-free items, 0<=M<=N<=3, before and after `_`, followed by 0-1 items, as context and as exception, vs the environment set of the explicit repetitions; (e) `A B > &` vs `A=1 B=2 > 2 1` for matrices/groups; x every word of W(I4,L). Oracle: structural equality of the two runs, or both Err. Non-trivial = equal and the word changed.".into();
     let ws = words(if thorough { 5 } else { 4 });
     let s = |x: &str| x.to_string();
     let mut jobs: Vec<(&'static str, Vec<String>, Vec<String>)> = vec![];
@@ -126,6 +126,13 @@ pub fn run() -> i32 {
         compare("group", &[format!("{} > [tone:7]", g)], &[format!("{} > [tone:7]", m)], &uw, &mut gc);
         compare("group+mod", &[format!("{}:[+long] > [tone:7]", g)], &[format!("[{}, +long] > [tone:7]", inner)], &uw2, &mut gc);
         compare("group+mod", &[format!("{}:[+voice, -stress] > [tone:7]", g)], &[format!("[{}, +voice, -stress] > [tone:7]", inner)], &uw2, &mut gc);
+        // a modifier on one of the group's own features overrides it (as a later entry of a matrix overrides an earlier one)
+        for own in inner.split(", ") {
+            let flipped = if let Some(x) = own.strip_prefix('+') { format!("-{}", x) } else { format!("+{}", &own[1..]) };
+            compare("group+mod", &[format!("{}:[{}] > [tone:7]", g, flipped)], &[format!("[{}, {}] > [tone:7]", inner, flipped)], &uw, &mut gc);
+            compare("group+mod", &[format!("{}:[{}] > [tone:7]", g, own)], &[format!("[{}, {}] > [tone:7]", inner, own)], &uw, &mut gc);
+            compare("group-in-context", &[format!("a > i / {}:[{}] _", g, flipped)], &[format!("a > i / [{}, {}] _", inner, flipped)], &uw2, &mut gc);
+        }
         compare("group-in-context", &[format!("a > i / {} _", g)], &[format!("a > i / {} _", m)], &uw2, &mut gc);
         compare("group-in-exception", &[format!("a > i | {}:[+long] _", g)], &[format!("a > i | [{}, +long] _", inner)], &uw2, &mut gc);
         compare("group-in-structure", &[format!("⟨{} a⟩ > [tone:7]", g)], &[format!("⟨{} a⟩ > [tone:7]", m)], &uw2, &mut gc);
